@@ -476,7 +476,9 @@ M("C03", "setbit-outside-try", LX, "                        request.set_bit(bit,
 
 # D13.7 nullable reply fields
 M("C13", "frag-early-return", PL, "        super()._parse_reply(dont_parse=True)\n        try:\n            if self.data[:2] == STRUCTURE_READ_REPLY:", "        super()._parse_reply(dont_parse=True)\n        if not self.is_valid():\n            return\n        try:\n            if self.data[:2] == STRUCTURE_READ_REPLY:", ["D13.7"])
-M("C13", "data-before-status", PE, "            self.service_status = USINT.decode(self.raw[48:49])\n            self.data = self.raw[50:]", "            self.service_status = USINT.decode(self.raw[48:49])\n            self.service = Services.get(Services.from_reply(self.raw[46:47]))\n            self.data = self.raw[50:]", ["D13.7"])
+# (replaced: inserting a second, identical service decode between the status decode and the data slice is equivalent - it cannot fail
+# where the first one succeeded; the order that matters is status decoded BEFORE a decode that can still fail)
+M("C13", "status-before-service", PE, "            self.service = Services.get(Services.from_reply(self.raw[46:47]))\n            self.service_status = USINT.decode(self.raw[48:49])\n            self.data = self.raw[50:]", "            self.service_status = USINT.decode(self.raw[48:49])\n            self.service = Services.get(Services.from_reply(self.raw[46:47]))\n            self.data = self.raw[50:]", ["D13.7"])
 M("C13", "frag-offset-unguarded", LX, "                if response.service_status == INSUFFICIENT_PACKETS:\n                    offset += len(response.value_bytes)", "                more = response.service_status == INSUFFICIENT_PACKETS\n                offset += len(response.value_bytes)\n                if more:", ["D13.7"])
 T("C13", "frag-data-none-return", PL, "        super()._parse_reply(dont_parse=True)\n        try:\n            if self.data[:2] == STRUCTURE_READ_REPLY:", "        super()._parse_reply(dont_parse=True)\n        if self.data is None:\n            return\n        try:\n            if self.data[:2] == STRUCTURE_READ_REPLY:")
 T("C13", "frag-valid-guard", LX, "                if response.service_status == INSUFFICIENT_PACKETS:\n                    offset += len(response.value_bytes)", "                if response and response.service_status == INSUFFICIENT_PACKETS:\n                    offset += len(response.value_bytes)")
